@@ -12,68 +12,157 @@ import (
 
 	"verif/h/bubble"
 	"verif/h/ev"
+	"verif/h/wl"
 )
 
-// Plain regression checks for histories the generated search found (no generator involved).
+// Plain replays of minimal histories the generated search found (no generator involved).
 
-// TestRegressLostResponseThenRetriableErrorAtRetryLimit replays the minimal history behind
-// the finding "fixed: property=C02 ... lost produce response, then a retriable error at the
-// retry limit": attempt 1 is appended by the broker but its response is cut off, attempt 2
-// is answered NOT_LEADER_FOR_PARTITION, and RecordRetries(1) is then exhausted. The record
-// is in the log, so its promise must not report an error.
+// lostResponseThenCode runs the minimal history "attempt 1 is appended by the broker but its
+// response is cut off, attempt 2 is answered with code" against a one-broker cluster with the
+// given client options. It returns the promise error, how often the record is in the log and
+// how many produce requests the broker saw.
+func lostResponseThenCode(t *testing.T, code int16, opts ...kgo.Opt) (perr error, inLog int, nproduce int) {
+	bubble.Run(t, nil, func(e *bubble.Env) {
+		e.StartCluster(bubble.ClusterOpts{Brokers: 1, Topics: map[string]int32{"t0": 1}})
+		e.Cluster.ControlKey(0, func(kreq kmsg.Request) (kmsg.Response, error, bool) {
+			e.Cluster.KeepControl()
+			nproduce++
+			if nproduce != 2 {
+				return nil, nil, false
+			}
+			req := kreq.(*kmsg.ProduceRequest)
+			resp := req.ResponseKind().(*kmsg.ProduceResponse)
+			for _, t := range req.Topics {
+				rt := kmsg.NewProduceResponseTopic()
+				rt.Topic, rt.TopicID = t.Topic, t.TopicID
+				for _, p := range t.Partitions {
+					rp := kmsg.NewProduceResponseTopicPartition()
+					rp.Partition, rp.ErrorCode, rp.BaseOffset = p.Partition, code, -1
+					rt.Partitions = append(rt.Partitions, rp)
+				}
+				resp.Topics = append(resp.Topics, rt)
+			}
+			return resp, nil, true
+		})
+		e.Net.AddRule(bubble.Rule{Key: 0, Nth: 0, Act: bubble.TruncResponse, Trunc: 6})
+		cl := e.NewClient(append([]kgo.Opt{kgo.ProducerLinger(0)}, opts...)...)
+		ctx, cancel := context.WithTimeout(context.Background(), 2*time.Minute)
+		defer cancel()
+		res := cl.ProduceSync(ctx, &kgo.Record{Topic: "t0", Partition: 0, Value: []byte("regress-c02")})
+		perr = res.FirstErr()
+		recs, _, err := e.ReadLog(e.RawClient(), "t0", 0, 0)
+		if err != nil {
+			panic("VERIF-INFRA: raw log read: " + err.Error())
+		}
+		for _, r := range recs {
+			if string(r.Value) == "regress-c02" {
+				inLog++
+			}
+		}
+	})
+	return
+}
+
+// TestRegressLostResponseThenRetriableErrorAtRetryLimit replays the history behind
+// "fixed: property=C02 a366d7f": the second attempt is answered NOT_LEADER_FOR_PARTITION (or
+// NOT_ENOUGH_REPLICAS) with RecordRetries(1) exhausted. The record is in the log, so its
+// promise must not report an error.
 func TestRegressLostResponseThenRetriableErrorAtRetryLimit(t *testing.T) {
 	for _, code := range []int16{kerr.NotLeaderForPartition.Code, kerr.NotEnoughReplicas.Code} {
-		bubble.Run(t, nil, func(e *bubble.Env) {
-			e.StartCluster(bubble.ClusterOpts{Brokers: 1, Topics: map[string]int32{"t0": 1}})
-			nproduce := 0
-			e.Cluster.ControlKey(0, func(kreq kmsg.Request) (kmsg.Response, error, bool) {
-				e.Cluster.KeepControl()
-				nproduce++
-				if nproduce != 2 {
-					return nil, nil, false
+		perr, n, nproduce := lostResponseThenCode(t, code, kgo.RecordRetries(1))
+		ev.Case(fmt.Sprintf("regress-lost-response-then-code-%d-at-retry-limit", code), true)
+		ev.Class("regression-replays")
+		if nproduce < 2 {
+			t.Errorf("history not reached: %d produce requests", nproduce)
+			continue
+		}
+		if perr != nil && n != 0 {
+			t.Errorf("code %d: promise reported %q but the record is in the log %d time(s)", code, perr, n)
+		}
+		if perr == nil && n != 1 {
+			t.Errorf("code %d: promise reported success but the record is in the log %d times", code, n)
+		}
+	}
+}
+
+// TestRegressLostResponseThenUnknownTopicLimit replays "fixed: property=C02 f73cf8e":
+// the retry after the lost response is answered UNKNOWN_TOPIC_OR_PARTITION (what a broker that
+// no longer hosts the partition answers) with UnknownTopicRetries(0) exhausted.
+func TestRegressLostResponseThenUnknownTopicLimit(t *testing.T) {
+	perr, n, nproduce := lostResponseThenCode(t, kerr.UnknownTopicOrPartition.Code, kgo.UnknownTopicRetries(0))
+	ev.Case("regress-lost-response-then-unknown-topic-limit", true)
+	ev.Class("regression-replays")
+	if nproduce < 2 {
+		t.Errorf("history not reached: %d produce requests", nproduce)
+		return
+	}
+	if perr != nil && n != 0 {
+		t.Errorf("promise reported %q but the record is in the log %d time(s)", perr, n)
+	}
+	if perr == nil && n != 1 {
+		t.Errorf("promise reported success but the record is in the log %d times", n)
+	}
+}
+
+// TestRegressStaleUnknownCountThenTimedOutAfterAppend replays the second shape of the same
+// defect: record A is answered UNKNOWN_TOPIC_OR_PARTITION and fails at UnknownTopicRetries(0)
+// (not appended: fine); the unknown-failure count stays above the limit, and record B, which
+// the broker appends but answers REQUEST_TIMED_OUT, was then failed on the spot although the
+// client itself marks that answer as unsure-if-produced.
+func TestRegressStaleUnknownCountThenTimedOutAfterAppend(t *testing.T) {
+	var errA, errB error
+	inLog, nproduce := 0, 0
+	bubble.Run(t, nil, func(e *bubble.Env) {
+		e.StartCluster(bubble.ClusterOpts{Brokers: 1, Topics: map[string]int32{"t0": 1}})
+		e.Cluster.ControlKey(0, func(kreq kmsg.Request) (kmsg.Response, error, bool) {
+			e.Cluster.KeepControl()
+			nproduce++
+			if nproduce != 1 {
+				return nil, nil, false
+			}
+			req := kreq.(*kmsg.ProduceRequest)
+			resp := req.ResponseKind().(*kmsg.ProduceResponse)
+			for _, t := range req.Topics {
+				rt := kmsg.NewProduceResponseTopic()
+				rt.Topic, rt.TopicID = t.Topic, t.TopicID
+				for _, p := range t.Partitions {
+					rp := kmsg.NewProduceResponseTopicPartition()
+					rp.Partition, rp.ErrorCode, rp.BaseOffset = p.Partition, kerr.UnknownTopicOrPartition.Code, -1
+					rt.Partitions = append(rt.Partitions, rp)
 				}
-				req := kreq.(*kmsg.ProduceRequest)
-				resp := req.ResponseKind().(*kmsg.ProduceResponse)
-				for _, t := range req.Topics {
-					rt := kmsg.NewProduceResponseTopic()
-					rt.Topic, rt.TopicID = t.Topic, t.TopicID
-					for _, p := range t.Partitions {
-						rp := kmsg.NewProduceResponseTopicPartition()
-						rp.Partition, rp.ErrorCode, rp.BaseOffset = p.Partition, code, -1
-						rt.Partitions = append(rt.Partitions, rp)
-					}
-					resp.Topics = append(resp.Topics, rt)
-				}
-				return resp, nil, true
-			})
-			e.Net.AddRule(bubble.Rule{Key: 0, Nth: 0, Act: bubble.TruncResponse, Trunc: 6})
-			cl := e.NewClient(kgo.RecordRetries(1), kgo.ProducerLinger(0))
-			ctx, cancel := context.WithTimeout(context.Background(), 2*time.Minute)
-			defer cancel()
-			res := cl.ProduceSync(ctx, &kgo.Record{Topic: "t0", Partition: 0, Value: []byte("regress-c02")})
-			perr := res.FirstErr()
-			recs, _, err := e.ReadLog(e.RawClient(), "t0", 0, 0)
-			if err != nil {
-				panic("VERIF-INFRA: raw log read: " + err.Error())
+				resp.Topics = append(resp.Topics, rt)
 			}
-			n := 0
-			for _, r := range recs {
-				if string(r.Value) == "regress-c02" {
-					n++
-				}
-			}
-			ev.Case(fmt.Sprintf("regress-lost-response-then-code-%d-at-retry-limit", code), true)
-			ev.Class("regression-replays")
-			if nproduce < 2 {
-				t.Errorf("history not reached: %d produce requests", nproduce)
-				return
-			}
-			if perr != nil && n != 0 {
-				t.Errorf("code %d: promise reported %q but the record is in the log %d time(s)", code, perr, n)
-			}
-			if perr == nil && n != 1 {
-				t.Errorf("code %d: promise reported success but the record is in the log %d times", code, n)
-			}
+			return resp, nil, true
 		})
+		// the second produce request (record B, first attempt) is appended, its response rewritten
+		e.Net.AddRule(bubble.Rule{Key: 0, Nth: 1, Act: bubble.RewriteResponse, Code: kerr.RequestTimedOut.Code, Rewrite: func(ri *bubble.ReqInfo, body []byte) []byte {
+			return wl.RewriteProduceErr(ri.Version, body, kerr.RequestTimedOut.Code)
+		}})
+		cl := e.NewClient(kgo.ProducerLinger(0), kgo.UnknownTopicRetries(0), kgo.RecordRetries(1))
+		ctx, cancel := context.WithTimeout(context.Background(), 2*time.Minute)
+		defer cancel()
+		errA = cl.ProduceSync(ctx, &kgo.Record{Topic: "t0", Partition: 0, Value: []byte("regress-A")}).FirstErr()
+		errB = cl.ProduceSync(ctx, &kgo.Record{Topic: "t0", Partition: 0, Value: []byte("regress-B")}).FirstErr()
+		recs, _, err := e.ReadLog(e.RawClient(), "t0", 0, 0)
+		if err != nil {
+			panic("VERIF-INFRA: raw log read: " + err.Error())
+		}
+		for _, r := range recs {
+			if string(r.Value) == "regress-B" {
+				inLog++
+			}
+		}
+	})
+	ev.Case("regress-stale-unknown-count-then-timed-out-after-append", true)
+	ev.Class("regression-replays")
+	if errA == nil || nproduce < 2 {
+		t.Errorf("history not reached: record A err=%v, %d produce requests", errA, nproduce)
+		return
+	}
+	if errB != nil && inLog != 0 {
+		t.Errorf("record B: promise reported %q but the record is in the log %d time(s)", errB, inLog)
+	}
+	if errB == nil && inLog != 1 {
+		t.Errorf("record B: promise reported success but the record is in the log %d times", inLog)
 	}
 }
